@@ -473,7 +473,11 @@ func ruleBoundsCorrupt(c *Ctx) {
 			loop := mainSwitchLoop(p, fd)
 			head := fg.LoopHead(loop)
 			pre, ok1 := fg.EnumSegment(0, 0, map[int]bool{head: true}, 200000)
-			seg, ok2 := fg.EnumSegment(head, 0, map[int]bool{head: true}, 200000)
+			// the NOP flush loops inside the tape loop advance the cursor: two rounds of them so that the second
+			// store is checked against the loop's own guard and not only against the test at the top of the tape loop
+			fg.MaxEdgeUse = 2
+			seg, ok2 := fg.EnumSegment(head, 0, map[int]bool{head: true}, 400000)
+			fg.MaxEdgeUse = 1
 			if !ok1 || !ok2 {
 				c.Undecided(fn+":paths", p.Pos(fd), "too many paths")
 				continue
@@ -481,7 +485,12 @@ func ruleBoundsCorrupt(c *Ctx) {
 			paths = append(pre, seg...)
 			ok = true
 		} else {
-			paths, ok = fg.AllPaths(200000)
+			// loops unrolled twice where that stays tractable (the second round of a loop is checked against the loop's
+			// own guards), else once
+			paths, ok = fg.EnumPaths(0, 0, 2, 20000, nil)
+			if !ok {
+				paths, ok = fg.AllPaths(200000)
+			}
 			if !ok {
 				c.Undecided(fn+":paths", p.Pos(fd), "too many paths")
 				continue
